@@ -12,7 +12,7 @@ Driver ops of C14.
   set, the rest into another, then `append`.
 * `ce T1… | l1 | T2… | l2` → `ok 1` / `ok 0`: do the two lints have the same context
 -/
-namespace Harper.Driver
+namespace Harper.Driver.Ignore
 open Harper Harper.Proto Harper.Ignore
 
 def natList? (w : String) : Option (List Nat) :=
@@ -69,4 +69,4 @@ def handleCe (args : List String) : String :=
     | _, _, _, _ => "bad-op"
   | _ => "bad-op"
 
-end Harper.Driver
+end Harper.Driver.Ignore
